@@ -67,7 +67,9 @@ func checkAuthedFlag(c *Ctx, gen *packages.Package) {
 	rule := "C06.R1.authed"
 	c.Rule(rule, "Authed is `len(Analyzed.SecurityRequirementsFor(op)) > 0` wherever it is set, and GenOperation.Authorized is the builder's Authed", 3)
 	info := gen.TypesInfo
-	isReq := func(e ast.Expr) bool {
+	var curBody ast.Node
+	isReq := func(e ast.Expr, builderDone bool) bool {
+		e = goan.ResolveLocal(info, curBody, e)
 		be, ok := ast.Unparen(e).(*ast.BinaryExpr)
 		if !ok || be.Op != token.GTR || goan.ExprString(be.Y) != "0" {
 			return false
@@ -76,7 +78,12 @@ func checkAuthedFlag(c *Ctx, gen *packages.Package) {
 		if !ok || !goan.IsBuiltinCall(info, call, "len") || len(call.Args) != 1 {
 			return false
 		}
-		inner, ok := ast.Unparen(call.Args[0]).(*ast.CallExpr)
+		arg := goan.ResolveLocal(info, curBody, call.Args[0])
+		// once the builder is complete (MakeOperation), its Security field holds the same SecurityRequirementsFor(op) result
+		if se, ok := ast.Unparen(arg).(*ast.SelectorExpr); ok && builderDone && se.Sel.Name == "Security" {
+			return true
+		}
+		inner, ok := ast.Unparen(arg).(*ast.CallExpr)
 		if !ok {
 			return false
 		}
@@ -86,6 +93,7 @@ func checkAuthedFlag(c *Ctx, gen *packages.Package) {
 	n := 0
 	for _, fd := range load.AllFuncs(gen) {
 		fd := fd
+		curBody = fd.Body
 		ast.Inspect(fd.Body, func(nd ast.Node) bool {
 			var lhs string
 			var rhs ast.Expr
@@ -102,11 +110,11 @@ func checkAuthedFlag(c *Ctx, gen *packages.Package) {
 			switch lhs {
 			case "Authed":
 				n++
-				c.Check(isReq(rhs), rule, fmt.Sprintf("generator.%s › Authed", load.FuncName(fd)), c.posOf(gen, nd.Pos()), "len(SecurityRequirementsFor(op)) > 0",
+				c.Check(isReq(rhs, false), rule, fmt.Sprintf("generator.%s › Authed", load.FuncName(fd)), c.posOf(gen, nd.Pos()), "len(SecurityRequirementsFor(op)) > 0",
 					fmt.Sprintf("Authed = %s: the flag no longer says 'the operation has an effective security requirement' — operations whose requirement names an undefined scheme, or only the global requirement, are served without authentication (or the converse)", goan.ExprString(rhs)))
 			case "Authorized":
 				n++
-				c.Check(goan.ExprString(rhs) == "b.Authed", rule, fmt.Sprintf("generator.%s › Authorized", load.FuncName(fd)), c.posOf(gen, nd.Pos()), "b.Authed", "GenOperation.Authorized = "+goan.ExprString(rhs)+" instead of the builder's Authed")
+				c.Check(goan.ExprString(goan.ResolveLocal(info, fd.Body, rhs)) == "b.Authed" || isReq(rhs, true), rule, fmt.Sprintf("generator.%s › Authorized", load.FuncName(fd)), c.posOf(gen, nd.Pos()), "b.Authed", "GenOperation.Authorized = "+goan.ExprString(rhs)+" instead of the builder's Authed")
 			}
 			return true
 		})
